@@ -358,15 +358,18 @@ class Plane:
         if plane._mask.ndim == 2:
             plane._mask = lentil.rescale(plane._mask, scale=scale, shape=None, mask=None, order=0,
                                          mode='constant', unitary=False)
-        else:
+        elif plane._mask.ndim == 3:
             plane._mask = np.asarray([lentil.rescale(mask, scale=scale, shape=None, mask=None,
                                                      order=0, mode='constant', unitary=False)
                                       for mask in plane._mask])
 
-        plane._mask[np.nonzero(plane._mask)] = 1
-        plane._mask = plane._mask.astype(int)
+        # a plane without a mask array (all attributes scalar) has nothing to
+        # resample: only its pixelscale changes
+        if plane._mask.ndim > 1:
+            plane._mask[np.nonzero(plane._mask)] = 1
+            plane._mask = plane._mask.astype(int)
 
-        plane._slice = _plane_slice(plane._mask)
+            plane._slice = _plane_slice(plane._mask)
 
         if plane.pixelscale is not None:
             plane._pixelscale = (plane.pixelscale[0]/scale, plane.pixelscale[1]/scale)
